@@ -75,7 +75,87 @@ static const std::vector<Fixture>& fixtures() {
     return v;
 }
 
+// ---------------------------------------------------------------- PBF files that are well-formed protobuf but inconsistent in one place
+static void hostile_pbf(Src& s) {
+    gen::ObjOpts go;
+    go.strmode = gen::StrMode::xml10;
+    go.allow_invisible = false;
+    go.valid_locations_only = true;
+    go.max_list = 4;
+    go.max_str = 12;
+    std::vector<model::Obj> data;
+    const size_t n = 1 + s.draw(6);
+    for (size_t i = 0; i < n; ++i) {
+        model::Obj x = gen::object(s, static_cast<int>(s.draw(3)), go);
+        if (x.type == model::NODE && x.loc.undefined()) x.loc = model::Loc{1, 2};
+        if (x.version == 0) x.version = 1;
+        if (x.ts == 0) x.ts = 1000;
+        if (x.uid == 0) x.uid = 7;
+        if (x.user.empty()) x.user = "u";
+        if (x.tags.empty() && s.boolean()) x.tags.push_back(model::Tag{"k", "v"});
+        if (x.type == model::RELATION && x.members.empty()) x.members.push_back(model::Member{model::WAY, 1, "r"});
+        data.push_back(std::move(x));
+    }
+    std::stable_sort(data.begin(), data.end(), [](const model::Obj& a, const model::Obj& b) { return a.type < b.type; });
+    size_t placed = 0;
+    for (size_t round = 0; round < 40; ++round) {
+    enc::PbfEncoder::Hostile h;
+    static const uint64_t sids[] = {1000, 100000, 0x7fffffffULL, 0x80000000ULL, 0xffffffffULL, 0x100000000ULL, ~0ULL, ~0ULL - 1, ~0ULL - 2, static_cast<uint64_t>(INT32_MIN), 1ULL << 63, 0};
+    switch (s.weighted({5, 4, 2, 1, 1})) {
+        case 0:
+            h.sid_at = static_cast<int>(s.draw(16));
+            h.sid_value = sids[s.draw(sizeof(sids) / sizeof(sids[0]))];
+            break;
+        case 1:
+            h.packed_at = static_cast<int>(s.draw(16));
+            h.packed_how = static_cast<int>(s.draw(4));
+            break;
+        case 2: {
+            h.rawsize_at = static_cast<int>(s.draw(3));
+            static const int64_t deltas[] = {-1, 1, -100, 100, 65536, 1 << 20};
+            static const int64_t abss[] = {0, 1, 0x7fffffff, 32 * 1024 * 1024, 32 * 1024 * 1024 + 1, 0xffffffffLL, INT64_MAX};
+            if (s.boolean()) h.rawsize_delta = deltas[s.draw(6)];
+            else h.rawsize_abs = abss[s.draw(7)];
+            break;
+        }
+        case 3: {
+            static const int64_t gr[] = {0, -1, -100, 1, INT32_MAX, INT64_MAX, INT64_MIN, 1LL << 40};
+            h.set_granularity = true;
+            h.granularity = gr[s.draw(8)];
+            break;
+        }
+        default: {
+            static const int64_t gr[] = {0, -1, -1000, 1, INT32_MAX, INT64_MAX, INT64_MIN, 1LL << 40};
+            h.set_date_granularity = true;
+            h.date_granularity = gr[s.draw(8)];
+            break;
+        }
+    }
+    enc::Choices ch;
+    enc::PbfPlan plan;
+    enc::Header hdr;
+    hdr.generator = "hostile";
+    std::string bytes;
+    {
+        enc::PbfEncoder e{s, ch, plan, false};
+        e.hostile = &h;
+        bytes = e.encode(hdr, data);
+    }
+    const std::string what = "pbf file with " + std::to_string(data.size()) + " objects, " + std::to_string(bytes.size()) + " bytes, inconsistent in one place:" + (h.fired ? h.what : std::string{" (the place was not reached)"});
+    if (vp::want_desc()) vp::describe(what);
+    check(bytes, "pbf", what);
+    vp::count(h.fired ? "hostile_pbf_inconsistency_placed" : "hostile_pbf_place_not_reached");
+    if (h.fired) ++placed;
+    }
+    vp::count("reader_runs", 40);
+    if (placed) vp::nontrivial(vp::hash_str(model::show(data[0])) ^ s.used().size());
+}
+
 static void prop(Src& s) {
+    if (s.chance(1, 4)) {
+        hostile_pbf(s);
+        return;
+    }
     std::string bytes, format, what;
     if (!fixtures().empty() && s.chance(1, 6)) {
         const Fixture& f = fixtures()[s.draw(fixtures().size())];
@@ -173,7 +253,7 @@ VP_BUILTIN(F07_user_name_of_65535_bytes_or_more) {
     }
 }
 
-VP_MAIN(prop, "base files: the harness encoders' small valid files in all four formats (1/4 of them gzip- or bzip2-compressed) and the repository's I/O fixtures; each base file is read intact, then every "
+VP_MAIN(prop, "one case in four: a PBF file from the harness encoder that is well-formed protobuf but inconsistent in one generated place (a string table index that is negative, beyond the table or beyond 32 bits; a packed array of a parallel group shortened, lengthened, emptied or doubled; a blob whose raw_size is wrong; granularity and date_granularity 0, negative or huge). Otherwise base files: the harness encoders' small valid files in all four formats (1/4 of them gzip- or bzip2-compressed) and the repository's I/O fixtures; each base file is read intact, then every "
               "prefix (all for files <= 600 bytes, 200 sampled otherwise), then 40 mutation programs of 1..3 steps (truncate, bit flip, byte overwrite with structural values, insert, delete, runs of "
               "255..70000 characters, duplicate range, boundary varints, remove the text between structural characters). Oracle: the process survives (ASan, UBSan subset, assertions), only "
               "std::exception-derived errors escape the Reader, and every delivered buffer passes the independent layout walker before it is traversed completely through the library's accessors. "
